@@ -941,16 +941,29 @@ def check_approx(i, j, k, m):
         got = False
     if got != want:
         return f"assert_equal({l}, {r}, relative_tolerance={rt}, absolute_tolerance={at}, dimension={dim}) {'passed' if got else 'raised'}; the contract says it must {'pass' if want else 'fail'}"
+    # the oracle underneath, called directly (a bare number on the right is compared under the supplied dimension)
+    from symplyphysics import Quantity
+    from symplyphysics.core.approx import approx_equal_quantities
+    if isinstance(l, Quantity):
+        try:
+            got2 = bool(approx_equal_quantities(l, r, relative_tolerance=rt, absolute_tolerance=at, dimension=dim))
+        except Exception as ex:  # noqa
+            got2 = type(ex).__name__
+        if want and got2 is not True:
+            return f"approx_equal_quantities({l}, {r}, relative_tolerance={rt}, absolute_tolerance={at}, dimension={dim}) gave {got2}; the contract says True"
+        if not want and got2 is True:
+            return f"approx_equal_quantities({l}, {r}, relative_tolerance={rt}, absolute_tolerance={at}, dimension={dim}) gave True; the contract says it must not accept"
     return None
 
 
-def search_approx(seed=0, budget=0):
+def search_approx(seed=0, budget=0, reduced=False):
+    """reduced: default tolerances and the dimensions None / length only (quick-tier audit); otherwise the whole pool"""
     ops, tols, dims = approx_pool()
     n = 0
     for i in range(len(ops)):
         for j in range(len(ops)):
-            for k in range(len(tols)):
-                for m in range(len(dims)):
+            for k in range(len(tols) if not reduced else 1):
+                for m in range(len(dims) if not reduced else 2):
                     n += 1
                     why = check_approx(i, j, k, m)
                     if why:
